@@ -316,6 +316,9 @@ def run_case(spec):
                         sorted(m["bad"]), m["terminated"], out, sorted(admissible))))
             if m["terminated"] == "interrupt" and "stop" not in names:
                 vs.append(V("interrupt", "no-stop", "the run was interrupted but the result was not asked to stop"))
+            if spec["interrupt"] is None and "stop" in names:
+                # only an interrupt asks the result to stop: a timeout, a failure or a dirty reactor does not
+                vs.append(V("interrupt", "spurious-stop", "no interrupt was ever delivered, yet the result was asked to stop (outcome %s, terminated=%r)" % (out, m["terminated"])))
         elif out is not None and m["tie"] and out == "addSuccess" and ({"error", "failure"} & m["bad"]) and not (
                 m["bad"] == {"error"} and (m["terminated"] or True)):
             pass
